@@ -58,8 +58,13 @@ def subsets(tier):
 def base_rustc_command(repo, tmp):
     """build the dependencies once and capture cargo's rustc invocation for the educe crate"""
     env = dict(os.environ, CARGO_TARGET_DIR=os.path.join(tmp, 'target'), CARGO_NET_OFFLINE='true')
-    p = subprocess.run(['cargo', 'check', '--offline', '-v', '--lib', '--manifest-path', os.path.join(repo, 'Cargo.toml')],
-                       capture_output=True, text=True, env=env)
+    for _attempt in range(3):
+        p = subprocess.run(['cargo', 'check', '--offline', '-v', '--lib', '--manifest-path', os.path.join(repo, 'Cargo.toml')],
+                           capture_output=True, text=True, env=env, stdin=subprocess.DEVNULL)
+        # cargo's own `rustc -` probe has been seen to fail when many cargo processes start at the same moment: not a verdict
+        if p.returncode == 0 or 'to learn about target-specific information' not in p.stderr:
+            break
+        time.sleep(2 + 3 * _attempt)
     if p.returncode != 0:
         return None, p.stderr[-3000:]
     cmd = None
@@ -128,7 +133,7 @@ def fm_matrix(cx, tier, rep):
             a = list(base) + ['--emit=metadata', '--out-dir', out, '-D', 'warnings', '-A', 'unexpected_cfgs']
             for f in fs:
                 a += ['--cfg', 'feature="%s"' % f]
-            p = subprocess.run(a, capture_output=True, text=True, cwd=repo, env=dict(os.environ, **envs))
+            p = subprocess.run(a, capture_output=True, text=True, cwd=repo, env=dict(os.environ, **envs), stdin=subprocess.DEVNULL)
             shutil.rmtree(out, ignore_errors=True)
             return fs, p.returncode, p.stderr
 
